@@ -1,5 +1,6 @@
 import Bee2V.C03.LemmasF
 import Bee2V.C03.LemmasPrg
+import Bee2V.C03.LemmasHashSpec
 import Bee2V.C03.LemmasCtr
 /-!
 # Property C03 — bash-f, bash hash, programmable automaton, brng, botp compute what the standards define
@@ -51,15 +52,15 @@ example :
 `F` is the sponge permutation; the theorems hold for every `F`, in particular for `bashF`
 (which is bash-f of the standard by `bashF0_eq_spec`). -/
 
-/- FULL STATEMENT (not proved in Lean):
-   `hashStepG F (l/4) (hashStepH F X (hashStart l)) = Spec.bashHash l X`, where `Spec.bashHash` is the
-   block-form algorithm of STB 34.101.77 §7 (pad `X ‖ 0x40 ‖ 0…` to a multiple of the rate, for each block
-   `S ← F(X_i ‖ S[r..))`, output the first l/4 octets) — and the same for every automaton command (§8).
+/- FULL STATEMENT (not proved in Lean): every automaton command (absorb, squeeze, encrypt, decrypt; §8 of
+   STB 34.101.77) equals its block-form text: split the data into `buf_len`-octet blocks, act on `S[0..|X_i|)`,
+   apply `F` after every full block.
    PROVED: the code's buffering skeleton (early return / fill-up / full-block loop / tail, arbitrary
    chunking) IS the octet-at-a-time sponge `foldBytes` (act on `s[pos]`, advance, apply `F` when
-   `pos = buf_len`).  MISSING: the regrouping of `foldBytes` into whole blocks and the padding rule of
-   StepG; both are exercised by the Python reference of the search oracle and by the test vectors only. -/
-theorem bashSponge_eq_standard_partial (F : Bytes → Bytes) (op : OpB) (data : Bytes) (st : Sp)
+   `pos = buf_len`), for every per-octet action.  For the HASH the regrouping into blocks and the padding are
+   proved as well (`bashHash_eq_standard` below).  MISSING for the automaton: the regrouping of `foldBytes`
+   into whole blocks per command; exercised by the Python automaton of the search oracle only. -/
+theorem bashPrg_eq_standard_partial (F : Bytes → Bytes) (op : OpB) (data : Bytes) (st : Sp)
     (h : st.pos < st.bufLen) : stepGen F op data st = foldBytes F op data st :=
   stepGen_eq_fold F op data st h
 
@@ -84,6 +85,26 @@ theorem bashHash_chunk_independent (F : Bytes → Bytes) (chunks : List Bytes) (
 example : [[1, 2], [], [3]].foldl (fun st c => hashStepH id c st) (hashStart 256)
     = hashStepH id [1, 2, 3] (hashStart 256) :=
   bashHash_chunk_independent id _ _ (bashHashStart_inv 256 (by decide))
+
+/-- **bash hash = the block-form algorithm of STB 34.101.77 §7** for every level `l ≤ 256`, every data
+length and EVERY chunking of the data: `S ← 0^{1472} ‖ ⟨l/4⟩_64`; pad `X ‖ 0x40 ‖ 0…0` to a multiple of the
+rate `192 − l/2`; `S ← F(X_i ‖ S[r..))` per block; output the first `l/4` octets.  `F` = any function that
+maps 192 octets to 192 octets (in particular `bashF`, which is bash-f by `bashF0_eq_spec`). -/
+theorem bashHash_eq_standard (F : Bytes → Bytes) (hF : ∀ s : Bytes, s.length = 192 → (F s).length = 192)
+    (l : Nat) (hl : l ≤ 256) (chunks : List Bytes) :
+    hashStepG F (l / 4) (chunks.foldl (fun st c => hashStepH F c st) (hashStart l))
+      = Spec.bashHash F l chunks.flatten := by
+  rw [bashHash_chunk_independent F chunks _ (bashHashStart_inv l hl)]
+  exact bashHash_spec F hF l hl _
+
+/-- the instance for the real sponge function -/
+theorem bashHash_bashF_eq_standard (l : Nat) (hl : l ≤ 256) (chunks : List Bytes) :
+    hashStepG bashF (l / 4) (chunks.foldl (fun st c => hashStepH bashF c st) (hashStart l))
+      = Spec.bashHash bashF l chunks.flatten :=
+  bashHash_eq_standard bashF (fun s _ => bashF_length s) l hl chunks
+
+example : Spec.pad 4 [1, 2, 3, 4, 5] = [1, 2, 3, 4, 5, 0x40, 0, 0] := by decide
+example : Spec.bashHash id 256 [7] = [7, 0x40] ++ List.replicate 62 0 := by decide
 
 /-- chunk independence of every `…Step` of the automaton (absorb, squeeze, encrypt, decrypt): state AND
 output of several Step calls = those of one call on the concatenated data -/
